@@ -107,7 +107,7 @@ impl Property for C09 {
     fn cases(tier: Tier) -> u32 {
         match tier {
             Tier::Quick => 1400,
-            Tier::Thorough => 40_000,
+            Tier::Thorough => 12_000,
         }
     }
 
@@ -120,7 +120,7 @@ impl Property for C09 {
     fn strategy(tier: Tier) -> BoxedStrategy<Case> {
         let maxlen = match tier {
             Tier::Quick => 120u16,
-            Tier::Thorough => 600u16,
+            Tier::Thorough => 300u16,
         };
         (chain_params(maxlen), net_params(), prop::collection::vec(reg_spec(), 1..4), prop::collection::vec(steps(), 1..40))
             .prop_map(|(mut chain, net, initial, steps)| {
